@@ -100,3 +100,51 @@ def _c11_fit_gives_up(sub: dict, params: dict) -> bool:
     except Exception:  # noqa: BLE001
         return False
     return not tr.steps
+
+
+def lift_remainders(rs, doc_p: dict, a: int, b: int, target: int):  # noqa: ANN001, ANN201
+    """Reference simulation of Transform.lift: the before/after remainder parts of every ancestor between the
+    range depth and the target. Returns list of (node type, [child types]) or None if there is no block range."""
+    from .ref import resolve as RR
+
+    rdoc = RR.N(doc_p, rs)
+    ra, rb = RR.RefPos(rs, rdoc, a), RR.RefPos(rs, rdoc, b)
+    br = ra.block_range(rb)
+    if br is None:
+        return None
+    depth, _start, _end, start_index, end_index = br
+    parts = []
+    before_inner = None
+    after_inner = None
+    splitting_b = splitting_a = False
+    for d in range(depth, target, -1):
+        node = ra.node(d)
+        i0 = start_index if d == depth else ra.index(d)
+        i1 = end_index if d == depth else rb.index(d) + 1
+        if splitting_b or i0 > 0:
+            splitting_b = True
+            kids = [k.t for k in node.kids[:i0]] + ([before_inner] if before_inner else [])
+            parts.append((node.t, kids))
+            before_inner = node.t
+        if splitting_a or i1 < len(node.kids):
+            splitting_a = True
+            kids = ([after_inner] if after_inner else []) + [k.t for k in node.kids[i1:]]
+            parts.append((node.t, kids))
+            after_inner = node.t
+    return parts
+
+
+@predicate("c12_lift_remainder_invalid")
+def _c12_lift(sub: dict, params: dict) -> bool:
+    """lift_target approved a lift whose split-off remainder of some ancestor is not valid content for that
+    ancestor's type (e.g. list_item(bullet_list(...)) without its leading paragraph)."""
+    if sub.get("mode") != "c12" or sub.get("helper") != "lift":
+        return False
+    from .gen import schemas
+
+    _lib, rs = schemas.get(sub["schema"])
+    _tag, a, b, target = sub["args"]
+    parts = lift_remainders(rs, sub["doc"], a, b, target)
+    if not parts:
+        return False
+    return any(not rs.accepts(t, kids) for t, kids in parts)
